@@ -481,6 +481,13 @@ pub(crate) trait Op {
     type Resources;
     type Args;
 
+    /// Whether or not the operation is issued again after the kernel
+    /// interrupted it (`EINTR`).
+    ///
+    /// This must be false for operations that took effect even though they were
+    /// interrupted, such as closing a descriptor.
+    const RESTART_INTERRUPTED: bool = true;
+
     /// Fill a submission to start the operation.
     fn fill_submission(
         resources: &mut Self::Resources,
@@ -528,6 +535,7 @@ impl<T: Op> crate::op::Op for T {
             |_, resources, args, submission| T::fill_submission(resources, args, submission),
             T::map_ok,
             T::fallback,
+            T::RESTART_INTERRUPTED,
         )
     }
 }
@@ -572,6 +580,7 @@ impl<T: Op + OpExtract> crate::op::OpExtract for T {
             |_, resources, args, submission| T::fill_submission(resources, args, submission),
             T::map_ok_extract,
             T::fallback_extract,
+            T::RESTART_INTERRUPTED,
         )
     }
 }
@@ -618,7 +627,7 @@ impl<T: FdOp> crate::op::FdOp for T {
         ctx: &mut task::Context<'_>,
         fd: &AsyncFd,
     ) -> Poll<Self::Output> {
-        poll(fd, state, ctx, T::fill_submission, T::map_ok, T::fallback)
+        poll(fd, state, ctx, T::fill_submission, T::map_ok, T::fallback, true)
     }
 }
 
@@ -662,6 +671,7 @@ impl<T: FdOp + FdOpExtract> crate::op::FdOpExtract for T {
             T::fill_submission,
             T::map_ok_extract,
             T::fallback_extract,
+            true,
         )
     }
 }
@@ -721,6 +731,7 @@ fn poll<T, O, R, A, Out>(
     fill_submission: impl Fn(&T, &mut R, &mut A, &mut Submission),
     map_ok: impl Fn(&T, R, OpReturn) -> Out,
     fallback: impl Fn(&T, R, &mut A, io::Error) -> io::Result<Out>,
+    restart_interrupted: bool,
 ) -> Poll<io::Result<Out>>
 where
     T: OpTarget,
@@ -737,6 +748,7 @@ where
         read_resources,
         map_ok,
         fallback,
+        restart_interrupted,
     )
 }
 
@@ -764,6 +776,7 @@ where
         get_resources,
         map_next,
         fallback,
+        true,
     )
 }
 
@@ -791,6 +804,7 @@ fn poll_inner<T, O, R, R2, A, Ok, Res>(
     get_resources: impl Fn(*mut R) -> R2,
     map_ok: impl Fn(&T, R2, OpReturn) -> Ok,
     fallback: impl Fn(&T, R2, &mut A, io::Error) -> io::Result<Ok>,
+    restart_interrupted: bool,
 ) -> Poll<Res>
 where
     T: OpTarget,
@@ -890,6 +904,19 @@ where
                     unsafe { data.tail.resources.get().cast::<R>().drop_in_place() }
                     return Poll::Ready(Res::done());
                 };
+
+                if !restart_interrupted && !O::IS_MULTISHOT && result.result == -libc::EINTR {
+                    // The operation took effect even though it was interrupted
+                    // (e.g. closing a descriptor), so it must not be issued
+                    // again: return the error to the caller.
+                    shared.status = Status::Complete;
+                    asan::unpoison(data.tail.resources.get());
+                    unlock(shared);
+                    let resources = get_resources(data.tail.resources.get().cast::<R>());
+                    let args = &mut data.tail.args;
+                    let err = io::Error::from_raw_os_error(libc::EINTR);
+                    return Poll::Ready(Res::from_res(fallback(target, resources, args, err)));
+                }
 
                 if !O::IS_MULTISHOT {
                     // For singlshot operations we set the status to Complete so
